@@ -72,6 +72,17 @@ class C13(Oracle):
         if R.ev_type == "renege":
             self.snap = {i.id_number: (bool(i.server), i.arrival_date) for i in R.inds(node)}
             self.cust = {i.id_number: i for i in R.inds(node)}
+            # documented order of coinciding events at ONE node: slotted service, shift change, end of service, class change,
+            # renege.  A service that ends at this very instant at this node frees its server first, so the customer whose
+            # patience runs out now may still "have started by then"; a renege executed while such an end of service is
+            # still pending took the server's place away from it (wave 8, C13-w8a).
+            if any(i.server and i.service_start_date == R.t for i in R.inds(node)):
+                R.counts["C13:renege_at_instant_of_a_service_start"] += 1      # reach probe: the tie exists and was ordered correctly
+            for i in R.inds(node):
+                if i.server and not i.is_blocked and getattr(i, "service_end_date", None) == R.t and getattr(node, "reneging", False):
+                    self.fail("renege-before-coinciding-end-of-service", "node %s t=%r: renege event executed while ind %s still has its end of service due at the same instant" % (
+                        node.id_number, R.t, i.id_number))
+                    break
 
     def micro(self, ev):
         if ev[2] == "acc":
